@@ -1821,6 +1821,16 @@ func tbC15Legacy(c *Ctx, p *packages.Package, attrs *types.Named) {
 					}
 				}
 				for h := range rs.how {
+					if base, narrow, cut := strings.Cut(h, "/"); cut {
+						// the encoder writes decimal text of the whole field: a reader with another base, or one that
+						// clamps to fewer bits than the field has, does not bring every value back
+						width := map[types.BasicKind]string{types.Int8: "8bits", types.Int16: "16bits", types.Int32: "32bits", types.Uint8: "8bits", types.Uint16: "16bits", types.Uint32: "32bits"}
+						if b, isB := ws.ftype.Underlying().(*types.Basic); !(isB && width[b.Kind()] == narrow) {
+							mismatch = fmt.Sprintf("reader conversion %s (%s) does not cover the %s field's decimal text", base, narrow, ws.ftype.String())
+							continue
+						}
+						h = base
+					}
 					if class == "?" || (h == "" && class != "string") || (h != "" && !strings.Contains(" "+okConv+" ", " "+h+" ")) {
 						mismatch = fmt.Sprintf("reader conversion %q does not fit the %s field", h, class)
 					}
